@@ -7,12 +7,24 @@ RULE = ("cases = committed corpus + seeded generator of harness/src/bin/c12.rs. 
         "every init invocation, delivered item/error/notice and handler call with its tokio::time::Instant stamp plus the final status. 30 %: merge histories (1-30 / 1-60 ops "
         "over send-left/right, drop-left/right sender, single poll, drain) against the real merge() polled with a no-op waker. Thorough additionally enumerates every script of "
         "<= 4 connections over a 7-symbol alphabet under two policies (5 600 scripts) and every merge history of length <= 6 over 5 symbols followed by drain+poll (19 531). "
+        "Input-domain families (separately seeded, appended after the random cases; 60 quick / N/10 thorough, one sixth each): dfail - a failure run of 12-40 / 12-70 "
+        "consecutive init failures between two successes under slowly growing policies (125x2 cap 60000 = the repository's constant, 1x2 cap 60000, 1x255 cap 1e6, 1x2 cap 1e8, "
+        "initial == max, multiplier 1 ...), then more failures (cap reached late, held, reset); dlong - scripts of 50-60 / 50-90 connections; dbig - initial / max in "
+        "{2^32-1, 2^32, 2^32+1, 5e9, 2^33} with multiplier 1 / 2 / 255 and at most 3 failures (virtual-time bound below); dedge - initial == max, initial*mult^k == max and one "
+        "either side (125x4|500, 125x2|999,1000,1001, 100x3|899,900,901, 1x255|65024,65025,65026, 499/500/501 cap 500, max 0) with failure runs of 2-7 around successes; dconn - "
+        "connections of 20-60 / 20-120 elements with bursts of 3-9 consecutive non-terminal errors (mostly one id), payloads {0,1,2,3,2^32,2^63,u64::MAX}, a terminal error "
+        "first / last / anywhere, latencies up to 60 s, forward capacities 10-1000; dmerge - merge histories with payloads from {1,1,1,2} or {0,1,u64::MAX} (equal across and "
+        "within the inputs), 40-80 items on one side against 0 / 1 on the other, both sides silent, one sender dropped at a drawn position of the history (or after it), the "
+        "other dropped later, sends after the end. "
         "A case is distinct by the SHA-1 of its op lines and non-trivial when the implementation's observation blocks differ at least once")
 ASSUMPTIONS = [
     "list-level trace semantics: a run is what a consumer that keeps polling observes while the paused clock auto-advances; poll/wake scheduling is not modelled",
     "the futures / tokio-stream combinators (once, chain, repeat_with, then, enumerate, scan, filter_map, map, map_while, flatten, collect, merge, fuse) are modelled by their sequential semantics (trusted, exercised by the correspondence)",
     "tokio_stream's Merge fairness flag is an input of the model (theorems hold for every flag sequence; the driver feeds the alternating sequence of tokio-stream 0.1.x)",
     "backoff_ms_current * multiplier does not overflow u64; timer granularity (1 ms) is not modelled, all scripted durations are whole milliseconds",
+    "the virtual time of one run stays below 29 * 2^30 ms (about 360 days): beyond it tokio's paused-clock timer wheel (6 levels x 6 bits of ms, with the harness's own far-future "
+    "timeout parked in the top level) panics in Wheel::set_elapsed and leaves the process unusable - a limit of tokio's test clock, not of the code under test; generated waits "
+    "beyond u32::MAX ms therefore come with at most three failures (sum < 2.6e10 ms); back-off values near u64::MAX are not generated (u64 overflow of the product: previous line)",
     "a policy with initial > max waits `initial` after the first failure and is capped only from the second (stated as is in backoff_sequence / backoff_closed_form)",
     "the first init failing means init_reconnecting_stream returns Err: no stream exists (init_failure_delivers_nothing); the property text's 're-initialisation' is read as attempts after the first success",
     "init_market_stream itself (consumer.rs:44-80) is run, as it is, by sub-check C12I over a scripted harness-local connector (two exchange ids, scripted MarketStream::init); the C12 harness proper composes the same three combinators in the same order over a scripted init closure",
